@@ -93,6 +93,18 @@ def peerSpec (obs : List String) : SpecResult :=
   else if obs.contains "panic" then some ("peer-error-at-most", "panicked on a peer message")
   else none
 
+/-- Calls of Info / Init / Snapshot / Restore while the UDF peer sends whatever it likes, asked for or not.
+`results` = (call, outcome) with outcome ∈ g<tag> (returned a response) | abort (returned an error) | blocked (still
+waiting for a peer that does not answer) | none | panic. A call may fail; the goroutine that made it must not
+panic (Snapshot() runs on the task's snapshotter goroutine: its panic is the death of the process). -/
+def rrSpec (obs : List String) (results : List (String × String)) : SpecResult :=
+  match peerSpec obs with
+  | some r => some r
+  | none =>
+    match results.find? (fun r => r.2 == "panic") with
+    | some r => some ("peer-error-at-most", s!"the goroutine that called the {r.1} request panicked on a response of the peer")
+    | none => none
+
 /-- A data point on its way to a UDF: every one of the `sent` points must come out as a request
 (`written`), whatever its field types. -/
 def udfWriteSpec (sent written : Nat) (obs : List String) : SpecResult :=
